@@ -16,8 +16,19 @@ KW_POOL = ['if', 'then', 'end', 'while', 'x1', 'IF', 'End']
 WORDS = ['if', 'IF', 'If', 'iff', 'i', 'then', 'the', 'THEN', 'end', 'End', 'ends', 'while', 'x', 'foo', 'x1', 'X1', 'ab', 'a']
 
 
+BIG_POOL = ['abort', 'abs', 'accept', 'access', 'all', 'and', 'array', 'at', 'begin', 'body', 'case', 'constant', 'declare', 'delay',
+            'delta', 'digits', 'do', 'else', 'elsif', 'end', 'entry', 'exception', 'exit', 'for', 'function', 'generic', 'goto', 'if',
+            'in', 'is', 'limited', 'loop', 'mod', 'new', 'not', 'null', 'of', 'or', 'others', 'out', 'package', 'pragma', 'private',
+            'procedure', 'raise', 'range', 'record', 'rem', 'renames', 'return', 'reverse', 'select', 'separate', 'subtype', 'task',
+            'terminate', 'then', 'type', 'use', 'when', 'while', 'with', 'xor']
+SEMS = [('none', {}), ('none', {}), ('none', {'ident': 'tag'}), ('identity', {}), ('none', {'ident': ('const', 'K')}),
+        ('none', {'ident': 'identity', 'start': 'tag'}), ('identity', {'ident': 'tag'})]
+
+
 def gen_kw_grammar(rng):
     kws = rng.sample(KW_POOL, rng.randint(1, 3))
+    if rng.random() < 0.25:     # a long keyword list (the generated KEYWORDS table spans several lines)
+        kws = rng.sample(BIG_POOL, rng.randint(9, len(BIG_POOL)))
     quoted = rng.random() < 0.3
     name_pat = rng.choice([r'[a-z]+', r'\w+', r'[A-Za-z]+', r'[a-zA-Z][a-zA-Z0-9]*'])
     ident_body = ('pat', name_pat) if rng.random() < 0.8 else ('choice', [('tok', 'if'), ('tok', 'foo'), ('pat', name_pat)])
@@ -43,11 +54,14 @@ def gen_kw_grammar(rng):
     return g, kws, shape
 
 
-def gen_texts(rng, n):
+def gen_texts(rng, n, kws=()):
     out = []
+    words = WORDS if len(kws) < 9 else WORDS + list(kws) * 2 + [k.upper() for k in kws[:6]] + [k + 's' for k in kws[:6]]
     for _ in range(n):
         k = rng.randint(1, 4)
-        out.append(' '.join(rng.choice(WORDS) for _ in range(k)))
+        out.append(' '.join(rng.choice(words) for _ in range(k)))
+    if len(kws) >= 9:           # every declared keyword on its own
+        out += list(kws)
     return out
 
 
@@ -57,10 +71,12 @@ def find_named_values(canon, keys=('name', 'names', 'a', 'b', 'c', 's')):
     if isinstance(canon, dict) and 'dict' in canon:
         for k, v in canon['dict'].items():
             if k in keys:
-                if isinstance(v, str):
-                    out.append(v)
-                elif isinstance(v, list):
-                    out += [x for x in v if isinstance(x, str)]
+                vs = v if isinstance(v, list) else [v]
+                for x in vs:
+                    while isinstance(x, dict) and 'tag' in x:       # a tagging action wrapped the matched name
+                        x = x['tag'][1]
+                    if isinstance(x, str):
+                        out.append(x)
             out += find_named_values(v, keys)
     elif isinstance(canon, list):
         for x in canon:
@@ -75,17 +91,20 @@ def shard(col, shard_i, ngrammars, ninputs):
     for gi in range(ngrammars):
         g, kws, shape = gen_kw_grammar(rng)
         col.count('shape.' + shape)
-        texts = gen_texts(rng, ninputs)
+        texts = gen_texts(rng, ninputs, kws)
+        col.count('keywords.many' if len(kws) >= 9 else 'keywords.few')
         for t in texts:
-            for igc in (None, True, False) if gi % 2 == 0 else (None,):
-                c = R.Case(g, t, None, E.Settings(ignorecase=igc), tag=shape)
+            for igc in (None, True, False) if gi % 2 == 0 and len(kws) < 9 else (None,):
+                sem = rng.choice(SEMS)
+                col.count('sem.' + ('none' if sem == ('none', {}) else 'actions'))
+                c = R.Case(g, t, None, E.Settings(ignorecase=igc), sem, tag=shape)
                 cases.append(c)
                 meta.append((kws, igc))
     results = []
     for off in range(0, len(cases), 400):
         results += R.run_cases(mr, cases[off:off + 400])
     for (c, io, mo, extra), (kws, igc) in zip(results, meta):
-        fp = [E.grammar_text(c.g), c.text, c.settings.kwargs()]
+        fp = [E.grammar_text(c.g), c.text, c.settings.kwargs(), repr(c.semspec)]
         if mo is None:
             col.case(fp, nontrivial=False)
             col.count('uncompilable')
@@ -109,7 +128,7 @@ def shard(col, shard_i, ngrammars, ninputs):
                                   f'a @name rule succeeded with the keyword {v!r} (effective ignorecase={eff})',
                                   {'oracle': 'never a keyword', 'case': c.describe(), 'keywords': kws, 'value': v, 'result': io})
         # generated parser agrees
-        if col.rng.random() < 0.3:
+        if col.rng.random() < 0.3 or len(kws) >= 9:
             go, _ = R.gen_outcome(c)
             col.count('genparser.compared')
             if isinstance(go, tuple) and go and go[0] in ('ok', 'fail', 'exc') and go != io:
@@ -123,7 +142,7 @@ def shard(col, shard_i, ngrammars, ninputs):
         if io[0] == 'ok' and not has_kw and col.rng.random() < 0.7:
             m2 = R.compile_grammar(g2)
             if not isinstance(m2, tuple):
-                o2, _ = R.impl_outcome(R.Case(g2, c.text, None, c.settings), m2)
+                o2, _ = R.impl_outcome(R.Case(g2, c.text, None, c.settings, c.semspec), m2)
                 col.count('undecorated.compared')
                 if o2 != io:
                     col.violation('oracle:decorator-changes-accepted-parse',
@@ -137,7 +156,8 @@ def main():
     chk = Check(PID)
     chk.rule = ('grammars with 1-3 @@keyword declarations (words, quoted strings, mixed case) and a @name rule used in a choice, a closure, a '
                 'lookahead, a sequence or a statement form x inputs mixing keywords, prefixes/suffixes and case variants x ignorecase by '
-                'directive and/or parse-time setting; compared: implementation vs model, the values bound to @name results vs the declared '
+                'directive and/or parse-time setting x semantics {none, tagging / constant / identity action on the @name rule, _default}; a quarter of '
+                'the grammars declare 9-60 keywords (every keyword is also an input, the generated parser is always compared); compared: implementation vs model, the values bound to @name results vs the declared '
                 'keywords, generated parser, undecorated grammar. Distinct by (grammar, input, settings).')
     chk.trusted += ['oracles per case from the real Python (re, unicode predicates incl. upper(), the resolved keyword set and ignorecase)']
     chk.coq()
